@@ -62,6 +62,40 @@ for energies, J in (([12000.0, 12100.0], 100.0), ([12000.0, 12300.0, 11900.0], 6
                         if x < 500 and p[b] > 1e-250 and abs(p[a] / p[b] - numpy.exp(x)) > 1e-6 * numpy.exp(x):
                             bad.append("%s: populations %d/%d in the ratio %.6g, Boltzmann %.6g" % (label, a, b, p[a] / p[b], numpy.exp(x)))
 
+# ---- molecular version: OpenSystem.get_thermal_ReducedDensityMatrix (temperature taken from the environment) ---------------------
+ta = qr.TimeAxis(0.0, 200, 1.0)
+for energies, modes in (([0.0, 12000.0], 0), ([0.0, 300.0], 0), ([0.0, 150.0, 420.0], 0), ([0.0, 12000.0], 1)):
+    for T in (0.5, 5.0, 25.0, 77.0, 300.0):
+        label = "molecule %s with %d modes, T=%g K" % (energies, modes, T)
+        try:
+            with qr.energy_units("1/cm"):
+                m = qr.Molecule(energies)
+                cf = qr.CorrelationFunction(ta, dict(ftype="OverdampedBrownian", reorg=20, cortime=100, T=T))
+                m.set_transition_environment((0, 1), cf)
+                if modes:
+                    md = qr.Mode(frequency=120.0)
+                    m.add_Mode(md)
+                    md.set_nmax(0, 3)
+                    md.set_nmax(1, 3)
+                    md.set_HR(1, 0.3)
+            rho = m.get_thermal_ReducedDensityMatrix()
+            Hd = numpy.array(m.get_Hamiltonian().data)
+        except Exception as e:      # noqa
+            bad.append("%s: raised %s: %s" % (label, type(e).__name__, str(e)[:100]))
+            continue
+        if not check_state(label, rho):
+            continue
+        w, S = numpy.linalg.eigh(Hd)
+        p = numpy.real(numpy.diag(S.T @ numpy.array(rho.data) @ S))
+        off = S.T @ numpy.array(rho.data) @ S - numpy.diag(p)
+        if numpy.max(numpy.abs(off)) > 1e-10:
+            bad.append("%s: not diagonal in the eigenbasis of the Hamiltonian" % label)
+        for a in range(len(p)):
+            for b in range(len(p)):
+                x = -(w[a] - w[b]) / (kB_intK * T)
+                if x < 500 and p[b] > 1e-250 and abs(p[a] / p[b] - numpy.exp(x)) > 1e-6 * numpy.exp(x) + 1e-200:
+                    bad.append("%s: populations %d/%d in the ratio %.6g, Boltzmann %.6g" % (label, a, b, p[a] / p[b], numpy.exp(x)))
+
 for b in bad[:12]:
     print("VIOLATED:", b)
 print("C14 oracle: %d violations" % len(bad))
